@@ -59,23 +59,33 @@ func vc16Executor(ns, quota int, structural int) {
 	opts := &neat.Options{NodeActivators: []neatmath.NodeActivationType{neatmath.SigmoidSteepenedActivation}, NodeActivatorsProb: []float64{1.0}, NewLinkTries: tNewLinkTries}
 	opts.PopSize = ns * quota
 	opts.MutateOnlyProb = 1
+	pool := 1
 	switch structural {
 	case 0:
 		// all or nothing: natively the draws inside the goroutines are not scripted, the rate alone must decide
 		opts.MutateAddNodeProb = float64(vChoice("MutateAddNodeProb 0 / 1", 2))
 	case 1:
 		opts.MutateAddLinkProb = 1
+	case 2:
+		// mating route, always outside the species: every goroutine reads the champion of ANOTHER species while that
+		// species' own goroutine reproduces from it
+		opts.MutateOnlyProb, opts.InterspeciesMateRate, opts.MateOnlyProb = 0, 1, 1
+		opts.MateMultipointProb = float64(vChoice("MateMultipointProb 0 / 1", 2))
+		opts.MateMultipointAvgProb, opts.MateSinglepointProb = 0, 1
+		pool = 2
 	}
 	var sorted []*Species
 	for i := 0; i < ns; i++ {
 		sp := NewSpecies(i + 1)
 		sp.Age = 2
 		sp.ExpectedOffspring = quota
-		g := tGenome("g", i+1, c16Exec)
-		o := &Organism{Genotype: g, Species: sp, Fitness: 1, originalFitness: 1}
-		sp.Organisms = append(sp.Organisms, o)
+		for k := 0; k < pool; k++ {
+			g := tGenome("g", 10*i+k+1, c16Exec)
+			o := &Organism{Genotype: g, Species: sp, Fitness: 1, originalFitness: 1}
+			sp.Organisms = append(sp.Organisms, o)
+			pop.Organisms = append(pop.Organisms, o)
+		}
 		pop.Species = append(pop.Species, sp)
-		pop.Organisms = append(pop.Organisms, o)
 		sorted = append(sorted, sp)
 	}
 	ex := &ParallelPopulationEpochExecutor{sequential: &SequentialPopulationEpochExecutor{sortedSpecies: sorted, bestSpeciesId: 1}}
@@ -99,3 +109,4 @@ func vc16Executor(ns, quota int, structural int) {
 func VC16_Executor_Quick()           { vc16Executor(2, 1, 0) }
 func VC16_Executor_Thorough()        { vc16Executor(3, 1, 0) }
 func VC16_ExecutorAddLink_Thorough() { vc16Executor(2, 1, 1) }
+func VC16_ExecutorMating_Thorough()  { vc16Executor(2, 1, 2) }
